@@ -2,6 +2,7 @@ package rules
 
 import (
 	"fmt"
+	"go/token"
 	"go/types"
 	"sort"
 	"strings"
@@ -14,7 +15,8 @@ import (
 // C07 — active-connection counts match in-flight requests.
 //
 // Typestate of "the backend counted for this request":
-//   nil -> uncounted (holder set) -> counted (IncConnNum) -> released (DecConnNum) -> nil (holder cleared)
+//
+//	nil -> uncounted (holder set) -> counted (IncConnNum) -> released (DecConnNum) -> nil (holder cleared)
 const (
 	tsNil = 1 << iota
 	tsUnc
@@ -38,10 +40,10 @@ func init() {
 		ID: "C07", Section: "3 C07",
 		Technique: "typestate dataflow on go/ssa (acquire=IncConnNum, release=DecConnNum, holder=request.Trans.Backend / findBackend result) with branch refinement; Inc/Dec site census",
 		Meta: core.Meta{
-			Level: "other",
-			Explanation: "Decides Inc/Dec pairing on every path: in ReverseProxy.clusterInvoke the holder request.Trans.Backend is in state nil or counted at every return and is only overwritten when nil, IncConnNum happens only on a set-uncounted holder and DecConnNum only on a counted one followed by clearing the holder; ReverseProxy.FinishReq releases exactly when the holder is non-nil, on every path (deferred), and is called from exactly one site per request; websocket/stream findBackend return (conn, backend) only in state counted and (nil) only with nothing counted, and their callers defer DecConnNum on the success path; all IncConnNum/DecConnNum call sites in the module are among the analysed ones (census). Not covered: that protocol layers other than bfe_server.conn.serveRequest invoke FinishReq for every request; modules that replace request.Trans.Backend inside callbacks; the atomicity of the counter itself.",
+			Level:       "other",
+			Explanation: "Decides Inc/Dec pairing on every path: in ReverseProxy.clusterInvoke the holder request.Trans.Backend is in state nil or counted at every return and is only overwritten when nil, IncConnNum happens only on a set-uncounted holder and DecConnNum only on a counted one followed by clearing the holder; ReverseProxy.FinishReq releases exactly when the holder is non-nil, on every path (deferred), and is called from exactly one site per request; websocket/stream findBackend return (conn, backend) only in state counted and (nil) only with nothing counted, and their callers defer DecConnNum on the success path; all IncConnNum/DecConnNum call sites in the module are among the analysed ones (census). The holder is identified structurally (field objects Trans.Backend of the request value, followed through spilled/captured variables and the parameters of private helpers), private helpers and local closures of the analysed functions are analysed as part of them (the state flows into the helper at its call and back from its returns), a deferred closure or private helper that releases is analysed in the state of its registration, and a nil test of a findBackend result that is non-nil on every success return cannot succeed while the backend is counted. Not covered: that protocol layers other than bfe_server.conn.serveRequest invoke FinishReq for every request; modules that replace request.Trans.Backend inside callbacks; the atomicity of the counter itself.",
 			RuleText:    "obligations = every Inc/Dec/holder-store/SetRequestTransport/return event of the analysed functions with the abstract state set reaching it; every Inc/Dec call site in the module (census)",
-			Assumptions: []string{"callbacks invoked between SetRequestTransport and IncConnNum do not change request.Trans.Backend's counted status"},
+			Assumptions: []string{"callbacks invoked between SetRequestTransport and IncConnNum do not change request.Trans.Backend's counted status", "a standard-library call returning (value, error) yields a non-nil value when the error is nil (net.DialTimeout in findBackend); callees do not reassign serverConn.bconn between findBackend and the nil test"},
 		},
 		Run: runC07,
 		Mutants: []Mutant{
@@ -51,35 +53,106 @@ func init() {
 			{Name: "ws-dec-dropped-on-dial-failure", File: "bfe_websocket/server_conn.go", Old: "			backend.DecConnNum()\n", New: "", Expect: "ts-"},
 			{Name: "stream-defer-dropped", File: "bfe_stream/server_conn.go", Old: "	defer back.DecConnNum()\n", New: "", Expect: "ts-return"},
 			{Name: "inc-moved-before-balance-check", File: "bfe_stream/server_conn.go", Old: "		backend.IncConnNum()\n", New: "		backend.IncConnNum()\n		backend.IncConnNum()\n", Expect: "ts-inc"},
+			{Name: "silent-finishreq-deferred-helper", File: "bfe_server/reverseproxy.go", Old: "// FinishReq should be invoked after quit ServHTTP().\nfunc (p *ReverseProxy) FinishReq(rw bfe_http.ResponseWriter, request *bfe_basic.Request) (action int) {\n\t// get instance of BfeServer\n\tsrv := p.server\n\n\t// desc connection num after request finish\n\tdefer func() {\n\t\t// desc backend connection counter\n\t\tif request.Trans.Backend != nil {\n\t\t\trequest.Trans.Backend.DecConnNum()\n\t\t}\n\t}()\n", New: "func releaseBackend(req *bfe_basic.Request) {\n\tif req.Trans.Backend == nil {\n\t\treturn\n\t}\n\treq.Trans.Backend.DecConnNum()\n}\n\n// FinishReq should be invoked after quit ServHTTP().\nfunc (p *ReverseProxy) FinishReq(rw bfe_http.ResponseWriter, request *bfe_basic.Request) (action int) {\n\t// get instance of BfeServer\n\tsrv := p.server\n\n\t// desc connection num after request finish\n\tdefer releaseBackend(request)\n", Silent: true},
+			{Name: "silent-clusterinvoke-count-in-local-func", File: "bfe_server/reverseproxy.go", Old: "\t\tbackend := request.Trans.Backend\n\t\tbackend.IncConnNum()\n", New: "\t\tcountBackend := func(r *bfe_basic.Request) *bfe_cluster_backend.BfeBackend {\n\t\t\tb := r.Trans.Backend\n\t\t\tb.IncConnNum()\n\t\t\treturn b\n\t\t}\n\t\tbackend := countBackend(request)\n", Silent: true},
+			{Name: "silent-stream-deferred-closure-logs", File: "bfe_stream/server_conn.go", Old: "\tdefer back.DecConnNum()\n", New: "\tdefer func() {\n\t\tlog.Logger.Debug(\"bfe_stream: release backend\")\n\t\tback.DecConnNum()\n\t}()\n", Silent: true},
+			{Name: "silent-websocket-defensive-nil-check", File: "bfe_websocket/server_conn.go", Old: "\tlog.Logger.Debug(\"bfe_websocket: proxy websocket connection to %v\", sc.bconn.RemoteAddr())\n\tdefer back.DecConnNum()\n", New: "\tif back == nil || sc.bconn == nil {\n\t\treturn\n\t}\n\tlog.Logger.Debug(\"bfe_websocket: proxy websocket connection to %v\", sc.bconn.RemoteAddr())\n\tdefer back.DecConnNum()\n", Silent: true},
+			{Name: "silent-stream-findbackend-inverted-if", File: "bfe_stream/server_conn.go", Old: "\t\tif err != nil {\n\t\t\t// connect backend failed, desc connection num\n\t\t\tbackend.DecConnNum()\n\t\t\tstate.StreamErrConnect.Inc(1)\n\t\t\tlog.Logger.Debug(\"bfe_stream: connect %s error: %s\", bAddr, err)\n\t\t\tcontinue\n\t\t}\n\n\t\treturn bc, backend, nil\n", New: "\t\tif err == nil {\n\t\t\treturn bc, backend, nil\n\t\t}\n\t\t// connect backend failed, desc connection num\n\t\tbackend.DecConnNum()\n\t\tstate.StreamErrConnect.Inc(1)\n\t\tlog.Logger.Debug(\"bfe_stream: connect %s error: %s\", bAddr, err)\n", Silent: true},
+			{Name: "silent-inc-defer-unlock-plus-equals", File: "bfe_balance/backend/bfe_backend.go", Old: "\tback.Lock()\n\tback.connNum++\n\tback.Unlock()\n", New: "\tback.Lock()\n\tdefer back.Unlock()\n\tback.connNum += 1\n", Silent: true},
 		},
 	})
 }
 
 func runC07(c *core.Ctx) {
-	incObj := c.P.Obj("bfe_balance/backend", "BfeBackend.IncConnNum")
-	decObj := c.P.Obj("bfe_balance/backend", "BfeBackend.DecConnNum")
+	p := c.P
+	incObj := p.Obj("bfe_balance/backend", "BfeBackend.IncConnNum")
+	decObj := p.Obj("bfe_balance/backend", "BfeBackend.DecConnNum")
 	if incObj == nil || decObj == nil {
 		c.Missing("bfe_balance/backend.BfeBackend.IncConnNum/DecConnNum")
 		return
 	}
 	const inc, dec = "bfe_balance/backend.BfeBackend.IncConnNum", "bfe_balance/backend.BfeBackend.DecConnNum"
 	analysed := map[ssa.Instruction]bool{}
+	isIncDec := func(in ssa.Instruction) bool {
+		ci, ok := in.(ssa.CallInstruction)
+		return ok && core.CallIs(ci.Common(), inc, dec)
+	}
+	// the holder request.Trans.Backend, identified structurally (field objects
+	// and the origin of the request value, not the names of locals/parameters)
+	holderAddr := func(addr, req ssa.Value) bool {
+		tb, ok := rbFieldAddr(addr, "", "Backend")
+		if !ok {
+			return false
+		}
+		rb, ok := rbFieldAddr(tb, "bfe_basic.Request", "Trans")
+		if !ok {
+			return false
+		}
+		return req == nil || rbRoot(p, rb) == req
+	}
+	holderLoad := func(v, req ssa.Value) bool {
+		u, ok := core.StripConv(v).(*ssa.UnOp)
+		return ok && u.Op == token.MUL && holderAddr(u.X, req)
+	}
+	// refineHolder narrows the state on `holder != nil` / `holder == nil` in any spelling
+	refineHolder := func(req ssa.Value) func(cond ssa.Value, pol bool, s uint32) uint32 {
+		isH := func(v ssa.Value) bool { return holderLoad(v, req) }
+		return func(cond ssa.Value, pol bool, s uint32) uint32 {
+			cond, pol = rbNorm(cond, pol)
+			g := core.Guard{Cond: cond, Pol: pol}
+			if g.CmpIs(token.NEQ, isH, isNilConst) {
+				return s &^ tsNil
+			}
+			if g.CmpIs(token.EQL, isH, isNilConst) {
+				return s & tsNil
+			}
+			return s
+		}
+	}
+	requestParam := func(fn *ssa.Function) ssa.Value {
+		for _, prm := range fn.Params {
+			if strings.HasSuffix(core.TypeStr(prm.Type()), "bfe_basic.Request") {
+				return rbRoot(p, prm)
+			}
+		}
+		return nil
+	}
 
 	// ---- clusterInvoke -------------------------------------------------
-	if fn := c.P.Func("bfe_server", "ReverseProxy.clusterInvoke"); fn == nil {
+	if fn := p.Func("bfe_server", "ReverseProxy.clusterInvoke"); fn == nil {
 		c.Missing("bfe_server.ReverseProxy.clusterInvoke")
+	} else if req := requestParam(fn); req == nil {
+		c.Missing("bfe_server.ReverseProxy.clusterInvoke: *bfe_basic.Request parameter")
 	} else {
-		c.Analysed(core.FuncKey(fn))
-		const holder = "request.Trans.Backend"
-		alias := map[string]bool{holder: true}
-		for _, call := range core.Calls(fn, "bfe_basic.Request.SetRequestTransport") {
+		region := rbRegion(p, fn)
+		inRegion := map[*ssa.Function]bool{}
+		for _, g := range region {
+			inRegion[g] = true
+			c.Analysed(core.FuncKey(g))
+		}
+		// values handed to SetRequestTransport are the holder's content
+		var alias []ssa.Value
+		for _, call := range rbRegionCalls(p, fn, "bfe_basic.Request.SetRequestTransport") {
 			if a := call.Common().Args; len(a) >= 2 {
-				alias[core.Render(a[1])] = true
+				alias = append(alias, rbRoot(p, a[1]))
 			}
+		}
+		isHeld := func(v ssa.Value) bool {
+			if holderLoad(v, req) || holderLoad(rbRoot(p, v), req) {
+				return true
+			}
+			r := rbRoot(p, v)
+			for _, a := range alias {
+				if a == r {
+					return true
+				}
+			}
+			return false
 		}
 		ord := map[string]int{}
 		key := func(kind string) string { ord[kind]++; return fmt.Sprintf("clusterInvoke:%s#%d", kind, ord[kind]) }
-		step := func(in ssa.Instruction, s uint32, report bool) uint32 {
+		ts := &rbTypestate{p: p, inRegion: inRegion, refine: refineHolder(req)}
+		ts.step = func(in ssa.Instruction, s uint32, report, top bool) uint32 {
 			chk := func(rule, kind string, ok bool, msg string) {
 				if report {
 					c.Check(rule, key(kind), in.Pos(), ok, msg+"; state before: "+tsName(s))
@@ -87,8 +160,8 @@ func runC07(c *core.Ctx) {
 			}
 			switch x := in.(type) {
 			case *ssa.Store:
-				if core.Render(x.Addr) == holder {
-					if k, ok := x.Val.(*ssa.Const); ok && k.Value == nil {
+				if holderAddr(x.Addr, req) {
+					if isNilConst(x.Val) {
 						chk("ts-clear", "clear", s&tsCnt == 0, "request.Trans.Backend is cleared while still counted (DecConnNum missing): the count leaks")
 						return tsNil
 					}
@@ -98,12 +171,12 @@ func runC07(c *core.Ctx) {
 			case ssa.CallInstruction:
 				cc := x.Common()
 				switch {
-				case core.CallIs(cc, "bfe_basic.Request.SetRequestTransport") && len(cc.Args) > 0 && core.Render(cc.Args[0]) == "request":
+				case core.CallIs(cc, "bfe_basic.Request.SetRequestTransport") && len(cc.Args) > 0 && rbRoot(p, cc.Args[0]) == req:
 					chk("ts-set", "set", s&^uint32(tsNil) == 0, "SetRequestTransport overwrites a backend that is still held (counted or uncounted)")
 					return tsUnc
 				case core.CallIs(cc, inc):
 					analysed[in] = true
-					if !alias[core.Render(cc.Args[0])] {
+					if !isHeld(cc.Args[0]) {
 						chk("ts-inc", "inc", false, "IncConnNum on "+core.Render(cc.Args[0])+", which is not the request's transport backend")
 						return s
 					}
@@ -111,7 +184,7 @@ func runC07(c *core.Ctx) {
 					return tsCnt
 				case core.CallIs(cc, dec):
 					analysed[in] = true
-					if !alias[core.Render(cc.Args[0])] {
+					if !isHeld(cc.Args[0]) {
 						chk("ts-dec", "dec", false, "DecConnNum on "+core.Render(cc.Args[0])+", which is not the request's transport backend")
 						return s
 					}
@@ -119,49 +192,41 @@ func runC07(c *core.Ctx) {
 					return tsRel
 				}
 			case *ssa.Return:
-				chk("ts-return", "return", s&^uint32(tsNil|tsCnt) == 0, "clusterInvoke returns with request.Trans.Backend set but not counted (or released but not cleared); FinishReq will decrement a count that was never incremented / decrement twice")
+				if top {
+					chk("ts-return", "return", s&^uint32(tsNil|tsCnt) == 0, "clusterInvoke returns with request.Trans.Backend set but not counted (or released but not cleared); FinishReq will decrement a count that was never incremented / decrement twice")
+				}
 			}
 			return s
 		}
-		refine := func(cond ssa.Value, pol bool, s uint32) uint32 {
-			r := core.Render(cond)
-			if r == "("+holder+" != nil)" {
-				if pol {
-					return s &^ tsNil
-				}
-				return s & tsNil
-			}
-			if r == "("+holder+" == nil)" {
-				if pol {
-					return s & tsNil
-				}
-				return s &^ tsNil
-			}
-			return s
-		}
-		core.Typestate(fn, tsNil|tsCnt, step, refine)
+		ts.run(fn, tsNil|tsCnt, true, true, 3)
 		c.Min("ts-inc", 1)
 		c.Min("ts-return", 2)
 		c.Min("ts-set", 1)
 	}
 
 	// ---- FinishReq -----------------------------------------------------
-	if fn := c.P.Func("bfe_server", "ReverseProxy.FinishReq"); fn == nil {
+	if fn := p.Func("bfe_server", "ReverseProxy.FinishReq"); fn == nil {
 		c.Missing("bfe_server.ReverseProxy.FinishReq")
+	} else if req := requestParam(fn); req == nil {
+		c.Missing("bfe_server.ReverseProxy.FinishReq: *bfe_basic.Request parameter")
 	} else {
 		c.Analysed(core.FuncKey(fn))
-		const holder = "request.Trans.Backend"
-		// the release is either inline or in a deferred closure
+		inRegion := map[*ssa.Function]bool{}
+		for _, g := range rbRegion(p, fn) {
+			inRegion[g] = true
+		}
+		// the release is either inline or in a deferred closure / deferred private helper
 		released := func(f *ssa.Function) (sites int, ok bool, detail string) {
 			ok = true
-			step := func(in ssa.Instruction, s uint32, report bool) uint32 {
+			ts := &rbTypestate{p: p, inRegion: inRegion, refine: refineHolder(req)}
+			ts.step = func(in ssa.Instruction, s uint32, report, top bool) uint32 {
 				switch x := in.(type) {
 				case ssa.CallInstruction:
 					if core.CallIs(x.Common(), dec) {
 						analysed[in] = true
 						if report {
 							sites++
-							if core.Render(x.Common().Args[0]) != holder || s&^uint32(tsCnt) != 0 {
+							if !holderLoad(x.Common().Args[0], req) || s&^uint32(tsCnt) != 0 {
 								ok = false
 								detail = "DecConnNum on " + core.Render(x.Common().Args[0]) + " in state " + tsName(s)
 							}
@@ -175,38 +240,33 @@ func runC07(c *core.Ctx) {
 						}
 					}
 				case *ssa.Return:
-					if report && s&tsCnt != 0 {
+					if top && report && s&tsCnt != 0 {
 						ok = false
 						detail = "a path leaves with the backend still counted"
 					}
 				}
 				return s
 			}
-			refine := func(cond ssa.Value, pol bool, s uint32) uint32 {
-				if core.Render(cond) == "("+holder+" != nil)" {
-					if pol {
-						return s &^ tsNil
-					}
-					return s & tsNil
-				}
-				return s
-			}
-			core.Typestate(f, tsNil|tsCnt, step, refine)
+			ts.run(f, tsNil|tsCnt, true, true, 3)
 			return
 		}
 		var okAll bool
 		var detail string
-		// case 1: deferred closure dominating every return
+		// case 1: deferred function registered before every return
 		for _, d := range allInstrs(fn) {
 			df, isDefer := d.(*ssa.Defer)
 			if !isDefer {
 				continue
 			}
-			mc, isClosure := df.Call.Value.(*ssa.MakeClosure)
-			if !isClosure {
+			var cl *ssa.Function
+			if mc, isClosure := df.Call.Value.(*ssa.MakeClosure); isClosure {
+				cl, _ = mc.Fn.(*ssa.Function)
+			} else if sc := df.Call.StaticCallee(); sc != nil && sc.Blocks != nil {
+				cl = sc
+			}
+			if cl == nil || !core.MayPass(cl, isIncDec, 3) {
 				continue
 			}
-			cl := mc.Fn.(*ssa.Function)
 			sites, ok, det := released(cl)
 			if sites == 0 {
 				continue
@@ -229,7 +289,7 @@ func runC07(c *core.Ctx) {
 		c.Check("finish-release", "FinishReq", fn.Pos(), okAll, "FinishReq must release the counted backend exactly once on every path, guarded by request.Trans.Backend != nil: "+detail)
 		// who may call FinishReq
 		var callers []string
-		for _, f := range c.P.SrcFuncs("") {
+		for _, f := range p.SrcFuncs("") {
 			for range core.Calls(f, "bfe_server.ReverseProxy.FinishReq") {
 				callers = append(callers, core.FuncKey(f))
 			}
@@ -237,13 +297,13 @@ func runC07(c *core.Ctx) {
 		sort.Strings(callers)
 		c.Check("finish-callers", "FinishReq", fn.Pos(), len(callers) == 1 && callers[0] == "bfe_server.conn.serveRequest",
 			"FinishReq must be called from exactly one site (bfe_server.conn.serveRequest) so that the release happens once per request; callers: "+strings.Join(callers, ", "))
-		if sr := c.P.Func("bfe_server", "conn.serveRequest"); sr != nil {
+		if sr := p.Func("bfe_server", "conn.serveRequest"); sr != nil {
 			c.Analysed(core.FuncKey(sr))
 			for _, sv := range core.Calls(sr, "bfe_server.ReverseProxy.ServeHTTP") {
-				bad := core.MustPass(sr, sv, func(x ssa.Instruction) bool {
+				bad := core.MustPass(sr, sv, core.LiftMust(func(x ssa.Instruction) bool {
 					ci, ok := x.(ssa.CallInstruction)
 					return ok && core.CallIs(ci.Common(), "bfe_server.ReverseProxy.FinishReq")
-				})
+				}, 2))
 				c.Check("finish-after-serve", "conn.serveRequest", sv.Pos(), bad == nil, "a path from ReverseProxy.ServeHTTP to return skips FinishReq: a counted backend would never be released")
 			}
 			c.Min("finish-after-serve", 1)
@@ -252,13 +312,22 @@ func runC07(c *core.Ctx) {
 
 	// ---- websocket / stream ---------------------------------------------
 	for _, pkg := range []string{"bfe_websocket", "bfe_stream"} {
-		fb := c.P.Func(pkg, "serverConn.findBackend")
-		sv := c.P.Func(pkg, "serverConn.serve")
+		fb := p.Func(pkg, "serverConn.findBackend")
+		sv := p.Func(pkg, "serverConn.serve")
 		if fb == nil || sv == nil {
 			c.Missing(pkg + ".serverConn.findBackend/serve")
 			continue
 		}
 		c.Analysed(core.FuncKey(fb), core.FuncKey(sv))
+		fbRegion, svRegion := map[*ssa.Function]bool{}, map[*ssa.Function]bool{}
+		for _, g := range rbRegion(p, fb) {
+			fbRegion[g] = true
+		}
+		for _, g := range rbRegion(p, sv) {
+			if !fbRegion[g] { // findBackend is summarised by its own obligations, not inlined into serve
+				svRegion[g] = true
+			}
+		}
 		// findBackend: candidate = result #0 of the balance handler call
 		beIdx := -1
 		res := fb.Signature.Results()
@@ -271,7 +340,8 @@ func runC07(c *core.Ctx) {
 			c.Missing(pkg + ".serverConn.findBackend backend result")
 			continue
 		}
-		isCand := func(v ssa.Value) bool {
+		errIdx := res.Len() - 1
+		isCandX := func(v ssa.Value) bool {
 			ex, ok := core.StripConv(v).(*ssa.Extract)
 			if !ok || ex.Index != 0 {
 				return false
@@ -279,12 +349,14 @@ func runC07(c *core.Ctx) {
 			_, isCall := ex.Tuple.(*ssa.Call)
 			return isCall && strings.HasSuffix(core.TypeStr(ex.Type()), "backend.BfeBackend")
 		}
+		isCand := func(v ssa.Value) bool { return isCandX(v) || isCandX(rbRoot(p, v)) }
 		ord := map[string]int{}
 		key := func(fn, kind string) string {
 			ord[fn+kind]++
 			return fmt.Sprintf("%s.%s:%s#%d", pkg, fn, kind, ord[fn+kind])
 		}
-		step := func(in ssa.Instruction, s uint32, report bool) uint32 {
+		tsF := &rbTypestate{p: p, inRegion: fbRegion}
+		tsF.step = func(in ssa.Instruction, s uint32, report, top bool) uint32 {
 			chk := func(rule, kind string, ok bool, msg string) {
 				if report {
 					c.Check(rule, key("findBackend", kind), in.Pos(), ok, msg+"; state before: "+tsName(s))
@@ -292,7 +364,7 @@ func runC07(c *core.Ctx) {
 			}
 			switch x := in.(type) {
 			case *ssa.Extract:
-				if isCand(x) {
+				if isCandX(x) {
 					chk("ts-acquire", "select", s&tsCnt == 0, "a new backend is selected while the previous one is still counted (DecConnNum missing on the retry path)")
 					return tsUnc
 				}
@@ -309,17 +381,56 @@ func runC07(c *core.Ctx) {
 					return tsRel
 				}
 			case *ssa.Return:
-				if len(x.Results) > beIdx {
-					if k, ok := x.Results[beIdx].(*ssa.Const); ok && k.Value == nil {
+				if !top {
+					return s
+				}
+				rv := core.RetVals(x)
+				if len(rv) > beIdx {
+					if isNilConst(rv[beIdx]) {
 						chk("ts-return", "return-nil", s&tsCnt == 0, "findBackend returns no backend while one is still counted")
 					} else {
-						chk("ts-return", "return-backend", isCand(x.Results[beIdx]) && s == tsCnt, "findBackend hands out a backend that is not counted exactly once")
+						chk("ts-return", "return-backend", isCand(rv[beIdx]) && s == tsCnt, "findBackend hands out a backend that is not counted exactly once")
 					}
 				}
 			}
 			return s
 		}
-		core.Typestate(fb, tsNil, step, nil)
+		tsF.run(fb, tsNil, true, true, 3)
+		// which results of findBackend are non-nil whenever it succeeds (error result nil)? The backend is
+		// (IncConnNum was called on it: obligation ts-return above); another result is when every success
+		// return hands out result #0 of a standard-library call whose error result was tested nil.
+		nonNil := map[int]bool{beIdx: true}
+		for i := 0; i < res.Len(); i++ {
+			if i == beIdx || i == errIdx {
+				continue
+			}
+			all, n := true, 0
+			for _, r := range core.Returns(fb) {
+				rv := core.RetVals(r)
+				if len(rv) != res.Len() || !isNilConst(rv[errIdx]) {
+					continue
+				}
+				n++
+				ex, ok := rbRoot(p, rv[i]).(*ssa.Extract)
+				if !ok || ex.Index != 0 {
+					all = false
+					continue
+				}
+				call, ok := ex.Tuple.(*ssa.Call)
+				if !ok || !rbStdlibValueErr(call) {
+					all = false
+					continue
+				}
+				isErrOf := func(v ssa.Value) bool {
+					e2, ok := rbRoot(p, v).(*ssa.Extract)
+					return ok && e2.Tuple == ssa.Value(call) && e2.Index == 1
+				}
+				if !rbGuarded(p, r.Block(), rbCmpAtom(token.EQL, isErrOf, isNilConst)) {
+					all = false
+				}
+			}
+			nonNil[i] = all && n > 0
+		}
 		// serve: the backend returned by findBackend is released by a defer on the success path
 		var fbCall *ssa.Call
 		for _, ci := range core.Calls(sv, pkg+".serverConn.findBackend") {
@@ -331,12 +442,19 @@ func runC07(c *core.Ctx) {
 			c.Missing(pkg + ".serverConn.serve: call of findBackend")
 			continue
 		}
-		isRes := func(v ssa.Value, i int) bool {
-			ex, ok := core.StripConv(v).(*ssa.Extract)
-			return ok && ex.Tuple == fbCall && ex.Index == i
+		resolve := func(v ssa.Value) ssa.Value {
+			v = rbRoot(p, v)
+			if sv2 := rbFieldReaching(v); sv2 != nil {
+				v = rbRoot(p, sv2)
+			}
+			return v
 		}
-		errIdx := res.Len() - 1
-		stepS := func(in ssa.Instruction, s uint32, report bool) uint32 {
+		isRes := func(v ssa.Value, i int) bool {
+			ex, ok := resolve(v).(*ssa.Extract)
+			return ok && ex.Tuple == ssa.Value(fbCall) && ex.Index == i
+		}
+		tsS := &rbTypestate{p: p, inRegion: svRegion}
+		tsS.step = func(in ssa.Instruction, s uint32, report, top bool) uint32 {
 			chk := func(rule, kind string, ok bool, msg string) {
 				if report {
 					c.Check(rule, key("serve", kind), in.Pos(), ok, msg+"; state before: "+tsName(s))
@@ -362,33 +480,85 @@ func runC07(c *core.Ctx) {
 					chk("ts-dec", "defer-dec", isRes(x.Call.Args[0], beIdx) && s == tsCnt, "deferred DecConnNum must act once on the backend returned by findBackend")
 					return tsSched
 				}
+				if core.CallIs(&x.Call, inc) {
+					analysed[in] = true
+					chk("ts-inc", "inc", false, "IncConnNum outside findBackend")
+					return s
+				}
+				// a deferred closure / private helper that performs the release (after logging, say)
+				var cl *ssa.Function
+				if mc, isClosure := x.Call.Value.(*ssa.MakeClosure); isClosure {
+					cl, _ = mc.Fn.(*ssa.Function)
+				} else if sc := x.Call.StaticCallee(); sc != nil && sc.Blocks != nil {
+					cl = sc
+				}
+				if cl == nil || !core.MayPass(cl, isIncDec, 3) {
+					return s
+				}
+				// the deferred body runs at exit in the state of its registration (any later event is
+				// checked against release-deferred): it must release exactly once on every path
+				inner := &rbTypestate{p: p, inRegion: svRegion}
+				inner.step = func(in2 ssa.Instruction, s2 uint32, report2, top2 bool) uint32 {
+					ci, ok := in2.(ssa.CallInstruction)
+					if !ok {
+						return s2
+					}
+					if core.CallIs(ci.Common(), dec) {
+						analysed[in2] = true
+						if report2 {
+							c.Check("ts-dec", key("serve", "defer-dec"), in2.Pos(), isRes(ci.Common().Args[0], beIdx) && s2 == tsCnt, "deferred DecConnNum must act once on the backend returned by findBackend; state before: "+tsName(s2))
+						}
+						return tsRel
+					}
+					if core.CallIs(ci.Common(), inc) {
+						analysed[in2] = true
+						if report2 {
+							c.Check("ts-inc", key("serve", "inc"), in2.Pos(), false, "IncConnNum outside findBackend")
+						}
+					}
+					return s2
+				}
+				exit := inner.run(cl, s, report, true, 3)
+				chk("ts-dec", "defer-body", exit == tsRel, "the deferred function must release the backend returned by findBackend on every one of its paths (state at its exit: "+tsName(exit)+")")
+				return tsSched
 			case *ssa.Return:
-				chk("ts-return", "return", s&tsCnt == 0, "serve returns while the backend handed out by findBackend is still counted and no release is deferred")
+				if top {
+					chk("ts-return", "return", s&tsCnt == 0, "serve returns while the backend handed out by findBackend is still counted and no release is deferred")
+				}
 			}
 			return s
 		}
-		refineS := func(cond ssa.Value, pol bool, s uint32) uint32 {
-			b, ok := cond.(*ssa.BinOp)
-			if !ok || !isRes(b.X, errIdx) {
-				return s
-			}
-			if k, isK := b.Y.(*ssa.Const); !isK || k.Value != nil {
-				return s
-			}
-			neq := b.Op.String() == "!="
-			if neq == pol { // err != nil holds
+		tsS.refine = func(cond ssa.Value, pol bool, s uint32) uint32 {
+			cond, pol = rbNorm(cond, pol)
+			g := core.Guard{Cond: cond, Pol: pol}
+			isErr := func(v ssa.Value) bool { return isRes(v, errIdx) }
+			if g.CmpIs(token.NEQ, isErr, isNilConst) { // err != nil holds
 				return s & tsNil
 			}
-			return s &^ tsNil
+			if g.CmpIs(token.EQL, isErr, isNilConst) {
+				return s &^ tsNil
+			}
+			// a result that is non-nil on every success return of findBackend cannot be nil while the
+			// backend is counted (defensive `if back == nil || conn == nil { return }`)
+			for i, nn := range nonNil {
+				if !nn {
+					continue
+				}
+				i := i
+				if g.CmpIs(token.EQL, func(v ssa.Value) bool { return isRes(v, i) }, isNilConst) {
+					return s & tsNil
+				}
+			}
+			return s
 		}
-		core.Typestate(sv, tsNil, stepS, refineS)
+		tsS.run(sv, tsNil, true, true, 3)
 	}
 	c.Min("ts-dec", 5)
 	c.Min("ts-acquire", 2)
 
 	// ---- census: every Inc/Dec call site in the module was analysed -------
 	n := 0
-	for _, f := range c.P.SrcFuncs("") {
+	for _, f := range p.SrcFuncs("") {
 		core.Instrs(f, func(in ssa.Instruction) {
 			ci, ok := in.(ssa.CallInstruction)
 			if !ok {
@@ -408,7 +578,7 @@ func runC07(c *core.Ctx) {
 	}
 	c.Min("census", 9)
 	// method values (backend.IncConnNum passed as a func) would escape the census
-	for _, f := range c.P.SrcFuncs("") {
+	for _, f := range p.SrcFuncs("") {
 		core.Instrs(f, func(in ssa.Instruction) {
 			if mc, ok := in.(*ssa.MakeClosure); ok {
 				if fn, ok := mc.Fn.(*ssa.Function); ok && (strings.HasSuffix(fn.Name(), "IncConnNum$bound") || strings.HasSuffix(fn.Name(), "DecConnNum$bound")) {
@@ -418,8 +588,8 @@ func runC07(c *core.Ctx) {
 		})
 	}
 	// the counter field is written only by Inc/Dec (and construction)
-	if fld, ok := c.P.Obj("bfe_balance/backend", "BfeBackend.connNum").(*types.Var); ok {
-		for _, f := range c.P.SrcFuncs("") {
+	if fld, ok := p.Obj("bfe_balance/backend", "BfeBackend.connNum").(*types.Var); ok {
+		for _, f := range p.SrcFuncs("") {
 			core.Instrs(f, func(in ssa.Instruction) {
 				fa, ok := in.(*ssa.FieldAddr)
 				if !ok || core.FieldObj(fa.X, fa.Field) != fld {
